@@ -347,10 +347,21 @@ def run(ctx):
             # direct oracle on the type: exactly the declared names, one `this *K` method per plain function
             declared = []
             for sp in c.specs:
-                declared += sp[1] if sp[0] == "ids" else [sp[1] if sp[0] == "star" else sp[2]]
-            if [f[0] for f in r["types"].get(c.name, [])] != declared:
-                ctx.fail("src:%s:fields" % vlib.sha(c.model_line()), "class %s: emitted struct has fields %s, the var block declares %s"
-                         % (c.name, [f[0] for f in r["types"].get(c.name, [])], declared), {"class": c.model_line(), "gox": cases[gi]["files"]})
+                tg = sp[3] or ""
+                if sp[0] == "ids" and sp[2]:
+                    declared += [[n, "0", sp[2], tg] for n in sp[1]]
+                elif sp[0] == "ids":
+                    declared.append([sp[1][0], "1", sp[1][0], tg])
+                elif sp[0] == "star":
+                    declared.append([sp[1], "1", "*" + sp[1], tg])
+                elif sp[0] == "starsel":
+                    declared.append([sp[2], "1", "*%s.%s" % (sp[1], sp[2]), tg])
+                else:
+                    declared.append([sp[2], "1", "%s.%s" % (sp[1], sp[2]), tg])
+            if [list(f) for f in r["types"].get(c.name, [])] != declared:
+                ctx.fail("src:%s:fields" % vlib.sha(c.model_line()),
+                         "class %s: the emitted struct has fields [name, embedded, type, tag] %s, the var block declares %s"
+                         % (c.name, r["types"].get(c.name, []), declared), {"class": c.model_line(), "gox": cases[gi]["files"]})
             meths = sorted(f[0] for f in r["funcs"] if f[1] == "this" and f[2] == "*" + c.name)
             if meths != sorted(c.mnames):
                 ctx.fail("src:%s:methods" % vlib.sha(c.model_line()), "class %s: methods with receiver `this *%s` are %s, the file declares %s"
